@@ -22,6 +22,7 @@ def file_text(run):
     if md["kind"] != "absent":
         out.append("#[[[ @module" + (" " + SUBST["MODNAME"] if md["kind"] == "named" else ""))
         if md["body"]:
+            out.append("# :Author: the module's author")      # a field list first: still content of the directive
             out.append("# " + SUBST["MODBODY"])
         out.append("#]]")
     if run["nextdoc"]:
@@ -69,9 +70,11 @@ def replay_one(beh, sandbox):
     run = beh["run"]
     proj = os.path.join(sandbox, "proj")
     text = file_text(run)
+    if (len(run["headers"]) + len(run["sep"]) + (1 if run["nextdoc"] else 0)) % 2 == 0:
+        text = text.replace("\n", "\r\n")          # the same module with CRLF line endings: names and titles are the same
     for rel in ALL_FILES:
         os.makedirs(os.path.join(proj, *rel[:-1]), exist_ok=True)
-        with open(os.path.join(proj, *rel), "w") as fh:
+        with open(os.path.join(proj, *rel), "w", encoding="utf-8", newline="") as fh:
             fh.write(text)
     for rel, target in LINKS.items():
         if not os.path.lexists(os.path.join(proj, *rel)):
@@ -140,6 +143,7 @@ def replay_one(beh, sandbox):
            "n_modules": len(mods), "module_first": bool(first is not None and first.name == "module"),
            "module": mods[0].arg if mods else None,
            "modtext": "\n".join(t for t in (mods[0].text_lines if mods else [])),
+           "modfields": [list(f) for f in mods[0].fields] if mods else [], "modoptions": [list(o) for o in mods[0].options] if mods else [],
            "firstdoc": "\n".join(fn[0].text_lines) if fn else None, "stray": [list(x) for x in page.stray]}
     return obs, argv
 
@@ -149,6 +153,7 @@ def expected(view, run, sandbox):
     h = run["headers"][0]
     return {"title": title, "over": h * len(title), "under": h * len(title), "n_modules": 1, "module_first": True,
             "module": toks(view["module"], sandbox), "modtext": SUBST.get(view["modtext"], view["modtext"]),
+            "modfields": [["Author", "the module's author"]] if view["modtext"] else [], "modoptions": [],
             "firstdoc": SUBST.get(view["firstdoc"], view["firstdoc"]), "stray": []}
 
 
@@ -165,6 +170,8 @@ def loose_c12(beh, obs, exp, sandbox):
     if obs.get("n_modules") != 1 or not obs.get("module_first") or obs.get("stray"):
         return False
     if obs.get("modtext") != exp["modtext"] or obs.get("firstdoc") != exp["firstdoc"]:
+        return False
+    if obs.get("modfields") != exp["modfields"] or obs.get("modoptions"):
         return False
     if run["moddoc"]["kind"] == "named":
         return t == exp["title"] and m == exp["module"]
